@@ -56,16 +56,11 @@ def Excl_shapeSFloor (shape : Shape) (sls : List (Option Sl)) : Bool :=
 def Excl_reshapeLongWindow (t : Dense) : Bool :=
   !t.view && (t.win.len : Int) != totalSize t.ap.shape
 
-/-- F31 (C07/C11): scalar-on-the-left comparison with same-type output on an iterator path: the
-    generated code walks the (contiguous) result buffer with the *operand's* iterator offsets
-    (`<Cmp>SameIter(typ, dataA, dataReuse, ait, bit)`): panic or wrong cells. -/
-def Excl_cmpSameIterSV (t : Dense) (reuse : Option Dense) (leftTensor same unsafe_ : Bool) : Bool :=
-  !leftTensor && same && !unsafe_ && !isScalar t.ap.shape &&
-    (t.requiresIterator || (match reuse with | some r => r.requiresIterator || r.ap.o.col != t.ap.o.col | none => false))
-
 /-- F35 (C16/C07): a reuse tensor whose data order differs from the operand's gets its order *flag*
     toggled by `handleFuncOpts` (strides untouched) and is then filled in the operand's storage
-    order on the contiguous path: the result's elements are permuted. -/
+    order on the contiguous path: the result's elements are permuted. Only `WithReuse`: an increment tensor
+    (`WithIncr`) keeps its flag and, its order differing from the operand's, is walked with its own iterator by every
+    `prepData*` (the unary one included, since its repair). -/
 def Excl_reuseOrderFlip (t : Dense) (reuse : Option Dense) : Bool :=
   match reuse with
   | some r => r.ap.o.col != t.ap.o.col && t.win.len != 1
